@@ -6,10 +6,529 @@ Every definition cites the Rust function it transcribes (file + fn) and keeps it
 wrapping arithmetic and its error returns; `Out.trap` / `none`-as-panic results mark what would be a panic of
 the overflow-checked profile, and Props/C01HandText.lean shows they are never produced.  Tied to the real code
 by harness group `text.model` (driver commands `ht.*`, Drv/C01HandText.lean).
+
+cmap.rs of this revision has hand-written code for formats 4, 12 and 14 only (formats 0/2/6/8/10/13 are read by
+the generated code and answered `None` by `Cmap::map_codepoint`).  Already modelled elsewhere and reused here:
+`ReadIter.Cmap4.lookupGlyphId`, `ReadIter.lookup12` (C01 iterators), `Layout.binarySearchBy` (core's
+`binary_search_by`, determined for unsorted keys too), `Cmap.mapVariant` / `Cmap.VarSel` (C08),
+`NameStr.macDecodeTable` / `macEncodeTable` / `Encoding.new` / `isChar` (C18), `HandRead.Cur` (cursor),
+`ReadIter.varGetPos` (`VarLenArray::get` walk).
 -/
 import FontVerif.Model.ReadIter
 import FontVerif.Model.HandRead
+import FontVerif.Model.Layout
+import FontVerif.Model.Cmap
+import FontVerif.Model.NameStr
 namespace FontVerif.HandText
 open FontVerif FontVerif.ReadIter FontVerif.HandRead
+
+/-! ## cmap.rs — `Cmap4::map_codepoint`, `Cmap12::map_codepoint`, `Cmap::map_codepoint` -/
+
+/-- outcome of the `while lo < hi` loop of `Cmap4::map_codepoint` / `Cmap12::map_codepoint` -/
+inductive Seek where
+  /-- the final `else`: segment `i` (whose start code is `sc`) contains the code point -/
+  | found (i sc : Nat)
+  /-- the loop ended with `lo >= hi` (`None` after the loop) -/
+  | miss
+  /-- a `.get(i)?` returned `None` -/
+  | getFail
+  /-- `lo + hi` overflowed `usize` (strict profile) -/
+  | trap
+  /-- the model ran out of fuel -/
+  | fuel
+  deriving Repr, DecidableEq
+
+/-- the loop
+`while lo < hi { let i = (lo + hi) / 2; let start = starts.get(i)?; if c < start { hi = i }
+ else if c > ends.get(i)? { lo = i + 1 } else { return … } }`
+with `startAt i` = `starts.get(i)`, `endAt i` = `ends.get(i)` (format 12 reads both from `groups.get(i)`). -/
+def seek (startAt endAt : Nat → Option Nat) (c : Nat) : Nat → Nat → Nat → Seek
+  | 0, lo, hi => if lo < hi then .fuel else .miss
+  | fuel + 1, lo, hi =>
+    if lo < hi then
+      if lo + hi > MAXU then .trap
+      else
+        let i := (lo + hi) / 2
+        match startAt i with
+        | none => .getFail
+        | some sc =>
+          if c < sc then seek startAt endAt c fuel lo i
+          else
+            match endAt i with
+            | none => .getFail
+            | some ec =>
+              if c > ec then seek startAt endAt c fuel (i + 1) hi
+              else .found i sc
+    else .miss
+
+/-- fuel that always suffices for a search over `n` segments (`seek_total`): the interval halves every trip -/
+def seekFuel (n : Nat) : Nat := n.log2 + 1
+
+/-- result of a code point lookup -/
+inductive MapRes where
+  | gid (g : Nat)
+  | none
+  | trap
+  | fuel
+  deriving Repr, DecidableEq
+
+def MapRes.ofLook : Look → MapRes
+  | .gid g => .gid g
+  | .none => .none
+  | .trap => .trap
+
+/-- `Cmap4::map_codepoint(codepoint)`: `codepoint > 0xFFFF → None`; `hi = seg_count_x2 as usize / 2`; binary search
+over `start_code` / `end_code`; `lookup_glyph_id(codepoint, i, start_code)` (whose `codepoint - start_code`
+is a `u16` subtraction — `Look.trap` when it underflows). -/
+def map4 (t : Cmap4) (segCountX2 cp : Nat) : MapRes :=
+  if cp > 0xFFFF then .none
+  else
+    match seek (fun i => t.startCode[i]?) (fun i => t.endCode[i]?) cp
+        (seekFuel (segCountX2 / 2)) 0 (segCountX2 / 2) with
+    | .found i sc => MapRes.ofLook (t.lookupGlyphId cp i sc)
+    | .miss => .none
+    | .getFail => .none
+    | .trap => .trap
+    | .fuel => .fuel
+
+/-- `Cmap12::map_codepoint(codepoint)`: `hi = groups.len()`; `groups.get(i)?` gives start, end and start glyph
+id of the same record; `lookup_glyph_id` is two wrapping `u32` operations. -/
+def map12 (gs : List Group) (cp : Nat) : MapRes :=
+  match seek (fun i => gs[i]?.map (·.startChar)) (fun i => gs[i]?.map (·.endChar)) cp
+      (seekFuel gs.length) 0 gs.length with
+  | .found i sc =>
+    match gs[i]? with
+    | some g => .gid (lookup12 cp sc g.startGlyph)
+    | none => .none
+  | .miss => .none
+  | .getFail => .none
+  | .trap => .trap
+  | .fuel => .fuel
+
+/-- what `record.subtable(self.offset_data())` gave for one encoding record -/
+inductive Sub where
+  | f4 (t : Cmap4) (segCountX2 : Nat)
+  | f12 (gs : List Group)
+  /-- `Ok` of any other format (`_ => None`) -/
+  | other
+  /-- `Err(_)`: the record is skipped -/
+  | err
+  deriving Repr
+
+def Sub.map : Sub → Nat → MapRes
+  | .f4 t x, cp => map4 t x cp
+  | .f12 gs, cp => map12 gs cp
+  | .other, _ => .none
+  | .err, _ => .none
+
+/-- `Cmap::map_codepoint`: the `for record in self.encoding_records()` loop; the first subtable that answers
+`Some(gid)` wins. -/
+def cmapMap : List Sub → Nat → MapRes
+  | [], _ => .none
+  | s :: rest, cp =>
+    match s.map cp with
+    | .none => cmapMap rest cp
+    | r => r
+
+/-! ## cmap.rs — format 14: `DefaultUvsIter`, `NonDefaultUvsIter`, `Cmap14::selector`, `Cmap14Iter`,
+`Cmap14::closure_glyphs`, `Cmap::closure_glyphs`  (`Cmap14::map_variant` = `Cmap.mapVariant`, C08) -/
+
+/-- `DefaultUvsIter { ranges: slice::Iter<UnicodeRange>, cur_range: Range<u32> }`; a range record is
+`(start_unicode_value, additional_count)` -/
+structure DuSt where
+  lo : Nat
+  hi : Nat
+  rest : List (Nat × Nat)
+  deriving Repr, DecidableEq
+
+/-- `start + range.additional_count() as u32 + 1` in `u32` (`none` = overflow trap) -/
+def uvsEnd (r : Nat × Nat) : Option Nat :=
+  if r.1 + r.2 + 1 < 4294967296 then some (r.1 + r.2 + 1) else none
+
+/-- `DefaultUvsIter::new(ranges)`; `none` = the `u32` addition trapped -/
+def duNew : List (Nat × Nat) → Option DuSt
+  | [] => some ⟨0, 0, []⟩
+  | r :: rs =>
+    match uvsEnd r with
+    | none => none
+    | some e => some ⟨r.1, e, rs⟩
+
+/-- the `loop` of `DefaultUvsIter::next` from `cur_range = lo..hi` with `rest` ranges left:
+`if let Some(cp) = cur_range.next() { return Some(cp) }  let range = ranges.next()?;  cur_range = start..end` -/
+def duLoop (lo hi : Nat) : List (Nat × Nat) → Out Nat × DuSt
+  | rest =>
+    if lo < hi then (.yield lo, ⟨lo + 1, hi, rest⟩)
+    else
+      match rest with
+      | [] => (.done, ⟨lo, hi, []⟩)
+      | r :: rs =>
+        match uvsEnd r with
+        | none => (.trap, ⟨lo, hi, []⟩)
+        | some e =>
+          if r.1 < e then (.yield r.1, ⟨r.1 + 1, e, rs⟩)
+          else duSkip r.1 e rs
+where
+  /-- an empty new range: round the loop again (never taken by decoded records, `end > start`) -/
+  duSkip (lo hi : Nat) : List (Nat × Nat) → Out Nat × DuSt
+    | [] => (.done, ⟨lo, hi, []⟩)
+    | r :: rs =>
+      match uvsEnd r with
+      | none => (.trap, ⟨lo, hi, []⟩)
+      | some e => if r.1 < e then (.yield r.1, ⟨r.1 + 1, e, rs⟩) else duSkip r.1 e rs
+
+/-- `DefaultUvsIter::next` (one call: `yield` / `done` / `trap`, never `cont`) -/
+def duNext (s : DuSt) : Out Nat × DuSt := duLoop s.lo s.hi s.rest
+
+/-- code points still to come: the rest of the current range and every later range -/
+def duRem (s : DuSt) : Nat := (s.hi - s.lo) + (s.rest.map (fun r => r.2 + 1)).sum
+
+/-- `Σ (additional_count + 1)` of a default UVS table -/
+def duTotal (ranges : List (Nat × Nat)) : Nat := (ranges.map (fun r => r.2 + 1)).sum
+
+/-- `default_uvs.ranges()` collected through `DefaultUvsIter` (`none` = `new` trapped or out of fuel) -/
+def duTrace (ranges : List (Nat × Nat)) : Option (List (Out Nat)) :=
+  match duNew ranges with
+  | none => some [.trap]
+  | some s => run duNext (duTotal ranges + 1) s
+
+/-- `Cmap14Iter { selector_record, default_uvs, non_default_uvs, cur_selector_ix }`;
+`NonDefaultUvsIter` is the remaining `(unicode_value, glyph_id)` mappings (`slice::Iter`) -/
+structure C14St where
+  sel : Option Cmap.VarSel
+  du : Option DuSt
+  nd : Option (List (Nat × Nat))
+  ix : Nat
+  deriving Repr, DecidableEq
+
+/-- `Cmap14::selector(index)` followed by the two `.map(…Iter::new)` of `Cmap14Iter::new` / `next`.
+`t[i].defaults` / `.nonDefaults` are `selector.default_uvs(data)` / `non_default_uvs(data)` with both
+`None` (null offset) and `Some(Err(_))` mapped to `none` (`.transpose().ok().flatten()`).  `none` = trap. -/
+def c14Load (t : List Cmap.VarSel) (ix : Nat) : Option C14St :=
+  match t[ix]? with
+  | none => some { sel := none, du := none, nd := none, ix := ix }
+  | some r =>
+    match r.defaults with
+    | none => some { sel := some r, du := none, nd := r.nonDefaults, ix := ix }
+    | some ranges =>
+      match duNew ranges with
+      | none => none
+      | some d => some { sel := some r, du := some d, nd := r.nonDefaults, ix := ix }
+
+/-- state after a trap (the run stops there) -/
+def c14Dead (ix : Nat) : C14St := { sel := none, du := none, nd := none, ix := ix }
+
+/-- one trip round the `loop` of `Cmap14Iter::next`; items are `(codepoint, selector, MapVariant)` -/
+def c14Step (t : List Cmap.VarSel) (s : C14St) : Out (Nat × Nat × Cmap.MapVariant) × C14St :=
+  match s.sel with
+  | none => (.done, s)
+  | some r =>
+    -- `if let Some(default_uvs) = self.default_uvs.as_mut() { if let Some(cp) = default_uvs.next() { return … } }`
+    let a : Out Nat × Option DuSt :=
+      match s.du with
+      | some d => ((duNext d).1, some (duNext d).2)
+      | none => (.done, none)
+    match a.1 with
+    | .yield cp => (.yield (cp, r.selector, .useDefault), { s with du := a.2 })
+    | .trap => (.trap, c14Dead s.ix)
+    | _ =>
+      -- `if let Some(non_default_uvs) = … { if let Some((cp, variant)) = non_default_uvs.next() { return … } }`
+      match s.nd with
+      | some (m :: ms) => (.yield (m.1, r.selector, .variant m.2), { s with du := a.2, nd := some ms })
+      | _ =>
+        -- `self.cur_selector_ix += 1; … = self.subtable.selector(self.cur_selector_ix)`
+        match c14Load t (s.ix + 1) with
+        | none => (.trap, c14Dead (s.ix + 1))
+        | some s' => (.cont, s')
+
+/-- trips one selector record costs: its default code points, its mappings, one to move on -/
+def c14Weight (r : Cmap.VarSel) : Nat :=
+  (match r.defaults with | some rs => duTotal rs | none => 0) +
+  (match r.nonDefaults with | some ms => ms.length | none => 0) + 1
+
+/-- fuel that always suffices (`cmap14_iter_bounded`) -/
+def c14Fuel (t : List Cmap.VarSel) : Nat := (t.map c14Weight).sum + 1
+
+/-- `cmap14.iter().collect()` as a trace -/
+def c14Trace (t : List Cmap.VarSel) : Option (List (Out (Nat × Nat × Cmap.MapVariant))) :=
+  match c14Load t 0 with
+  | none => some [.trap]
+  | some s => run (c14Step t) (c14Fuel t) s
+
+/-- `Cmap14::closure_glyphs(unicodes, glyph_set)`: the glyph ids added (in table order; the caller's set
+sorts and de-duplicates).  `has` = `unicodes.contains`. -/
+def closure14 (t : List Cmap.VarSel) (has : Nat → Bool) : List Nat :=
+  t.flatMap fun r =>
+    if has r.selector then
+      match r.nonDefaults with
+      | some ms => (ms.filter (fun m => has m.1)).map (·.2)
+      | none => []
+    else []
+
+/-- `Cmap::closure_glyphs`: the first record whose subtable reads as format 14 (`some t`; `none` = `Err` or
+another format, `continue`) decides -/
+def cmapClosure : List (Option (List Cmap.VarSel)) → (Nat → Bool) → List Nat
+  | [], _ => []
+  | some t :: _, has => closure14 t has
+  | none :: rest, has => cmapClosure rest has
+
+/-! ## name.rs — `MacRomanMapping::{decode, encode}`, `CharIter::{bump_u16, bump_u8, next}`,
+`NameRecord::string`, `LangTagRecord::lang_tag`, `Name::string_data` -/
+
+/-- `MacRomanMapping::decode(raw)`: `raw < 128 → raw as char`; else `MAC_ROMAN_DECODE[(raw - 128) as usize]`
+(index panic = `none`) and `char::from_u32(..).unwrap()` (`none` for a surrogate / out-of-range value) -/
+def macDecodeT (raw : Nat) : Option Nat :=
+  if raw < 128 then some raw
+  else
+    match NameStr.macDecodeTable[raw - 128]? with
+    | none => none
+    | some v => if NameStr.isChar v then some v else none
+
+/-- `MacRomanMapping::encode(c)`: `u16::try_from(c as u32).ok()?`; ASCII as is; else
+`MAC_ROMAN_ENCODE.binary_search_by_key(&raw_c, |(unic, _)| *unic)` and `MAC_ROMAN_ENCODE[idx].1`.
+Outer `none` = the index expression panicked. -/
+def macEncodeT (c : Nat) : Option (Option Nat) :=
+  if 65536 ≤ c then some none
+  else if c < 128 then some (some c)
+  else
+    match Layout.binarySearchBy NameStr.macEncodeTable.length
+        (fun i => Layout.natCmp (NameStr.macEncodeTable.getD i (0, 0)).1 c) with
+    | .err _ => some none
+    | .ok idx =>
+      match NameStr.macEncodeTable[idx]? with
+      | none => none
+      | some e => some (some e.2)
+
+/-- result of `CharIter::bump_u16` / `bump_u8` -/
+inductive Bump where
+  /-- `Some(v)`, position moved to `pos` -/
+  | val (v pos : Nat)
+  | none
+  /-- `self.pos + 2` overflowed, or `x.try_into().unwrap()` got a slice that is not 2 bytes long -/
+  | trap
+  deriving Repr, DecidableEq
+
+/-- `CharIter::bump_u16`: `self.data.get(self.pos..self.pos + 2).map(|x| u16::from_be_bytes(x.try_into().unwrap()))?;
+self.pos += 2` -/
+def bumpU16 (d : List Nat) (pos : Nat) : Bump :=
+  if pos + 2 > MAXU then .trap
+  else if pos + 2 ≤ d.length then
+    match (d.drop pos).take 2 with
+    | [a, b] => .val (a * 256 + b) (pos + 2)
+    | _ => .trap
+  else .none
+
+/-- `CharIter::bump_u8`: `self.data.get(self.pos)?; self.pos += 1` -/
+def bumpU8 (d : List Nat) (pos : Nat) : Bump :=
+  match d[pos]? with
+  | none => .none
+  | some b => if pos + 1 > MAXU then .trap else .val b (pos + 1)
+
+/-- `std::char::from_u32(raw_c).unwrap_or(REPLACEMENT_CHARACTER)` -/
+def charOrRep (raw : Nat) : Nat := if NameStr.isChar raw then raw else 0xFFFD
+
+/-- `CharIter::next` (one call; the state is `pos`).  After a trap the position is parked at the end. -/
+def charStep (enc : NameStr.Encoding) (d : List Nat) (pos : Nat) : Out Nat × Nat :=
+  if pos ≥ d.length then (.done, pos)
+  else
+    match enc with
+    | .utf16be =>
+      match bumpU16 d pos with
+      | .trap => (.trap, d.length)
+      | .none => (.done, pos)
+      | .val c1 p1 =>
+        if 0xD800 ≤ c1 ∧ c1 < 0xDC00 then
+          match bumpU16 d p1 with
+          | .trap => (.trap, d.length)
+          | .none => (.yield 0xFFFD, p1)
+          | .val c2 p2 =>
+            -- `((c1 & 0x3FF) << 10) + (c2 as u32 & 0x3FF) + 0x10000` in `u32`
+            let raw := (c1 % 1024) * 1024 + c2 % 1024 + 0x10000
+            if raw ≥ 4294967296 then (.trap, d.length) else (.yield (charOrRep raw), p2)
+        else (.yield (charOrRep c1), p1)
+    | .macRoman =>
+      match bumpU8 d pos with
+      | .trap => (.trap, d.length)
+      | .none => (.done, pos)
+      | .val c p1 =>
+        match macDecodeT c with
+        | none => (.trap, d.length)
+        | some v => (.yield (charOrRep v), p1)
+    | .unknown => (.done, pos)
+
+/-- `name_string.chars().collect()` (`NameString::chars`, `IntoIterator`, `iter_chars`, `Display::fmt` all
+start a `CharIter` at `pos = 0`) -/
+def charTrace (enc : NameStr.Encoding) (d : List Nat) : Option (List (Out Nat)) :=
+  run (charStep enc d) (d.length + 1) 0
+
+/-- a storage slice handed out by `NameRecord::string` / `LangTagRecord::lang_tag` -/
+inductive Slice where
+  | ok (a b : Nat)
+  /-- `Err(ReadError::OutOfBounds)` -/
+  | oob
+  /-- `start + self.length() as usize` overflowed -/
+  | trap
+  deriving Repr, DecidableEq
+
+/-- `NameRecord::string(data)` / `LangTagRecord::lang_tag(data)`:
+`start = offset.non_null().unwrap_or(0)`, `end = start + length as usize`, `data.as_bytes().get(start..end)` -/
+def nameSlice (dataLen off len : Nat) : Slice :=
+  let start := if off = 0 then 0 else off
+  if start + len > MAXU then .trap
+  else if start ≤ start + len ∧ start + len ≤ dataLen then .ok start (start + len)
+  else .oob
+
+/-- `Name::string_data`: `base.split_off(storage_offset as usize).unwrap_or_default()` (its length) -/
+def stringDataLen (d : List Nat) (storageOffset : Nat) : Nat := (splitOff d storageOffset).getD 0
+
+/-! ## post.rs — `PString::read`, `Post::{num_names, glyph_name}` (over the generated `Post::read`) -/
+
+/-- `std::str::from_utf8` acceptance (well-formed UTF-8, RFC 3629 ranges) -/
+def validUtf8 : List Nat → Bool
+  | [] => true
+  | b0 :: r =>
+    if b0 < 0x80 then validUtf8 r
+    else if 0xC2 ≤ b0 ∧ b0 ≤ 0xDF then
+      match r with
+      | b1 :: r1 => (0x80 ≤ b1 && b1 ≤ 0xBF) && validUtf8 r1
+      | _ => false
+    else if 0xE0 ≤ b0 ∧ b0 ≤ 0xEF then
+      match r with
+      | b1 :: b2 :: r2 =>
+        let lo := if b0 = 0xE0 then 0xA0 else 0x80
+        let hi := if b0 = 0xED then 0x9F else 0xBF
+        (lo ≤ b1 && b1 ≤ hi) && (0x80 ≤ b2 && b2 ≤ 0xBF) && validUtf8 r2
+      | _ => false
+    else if 0xF0 ≤ b0 ∧ b0 ≤ 0xF4 then
+      match r with
+      | b1 :: b2 :: b3 :: r3 =>
+        let lo := if b0 = 0xF0 then 0x90 else 0x80
+        let hi := if b0 = 0xF4 then 0x8F else 0xBF
+        (lo ≤ b1 && b1 ≤ hi) && (0x80 ≤ b2 && b2 ≤ 0xBF) && (0x80 ≤ b3 && b3 ≤ 0xBF) && validUtf8 r3
+      | _ => false
+    else false
+
+inductive PStr where
+  | ok (bytes : List Nat)
+  /-- `ReadError::OutOfBounds` -/
+  | oob
+  /-- `ReadError::MalformedData("Must be valid ascii")` -/
+  | malformed
+  /-- `from_utf8(..).unwrap()` on `Err` / `len as usize + 1` overflow -/
+  | trap
+  deriving Repr, DecidableEq
+
+/-- `PString::read(data)`: `len: u8 = data.read_at(0)?`, `data.as_bytes().get(1..len as usize + 1)`,
+`is_ascii()`, `from_utf8(pstring).unwrap()` -/
+def pstringRead (d : List Nat) : PStr :=
+  match readAt d 0 1 with
+  | none => .oob
+  | some len =>
+    if len + 1 > MAXU then .trap
+    else if 1 ≤ len + 1 ∧ len + 1 ≤ d.length then
+      let s := (d.drop 1).take len
+      if s.all (· < 128) then (if validUtf8 s then .ok s else .trap) else .malformed
+    else .oob
+
+/-- the parts of a successfully read `Post` the hand-written functions use -/
+structure PostT where
+  version : Nat
+  /-- `num_glyphs()` -/
+  numGlyphs : Option Nat
+  /-- `glyph_name_index()` -/
+  index : Option (List Nat)
+  /-- the bytes of `string_data()` -/
+  sdata : Option (List Nat)
+  deriving Repr, DecidableEq
+
+/-- `n` big-endian `u16`s from `pos` (only used when they exist) -/
+def u16sAt (d : List Nat) (pos : Nat) : Nat → List Nat
+  | 0 => []
+  | n + 1 => HandRead.beAt d pos 2 :: u16sAt d (pos + 2) n
+
+/-- the generated `Post::read` (read-fonts/generated/generated_post.rs) over `HandRead.Cur`: version, seven
+skipped fields, and for `version.compatible((2, 0))` (major = 2) `num_glyphs`, `num_glyphs * 2` index
+bytes and the remaining bytes as string data; every `cursor.position()?` and the final `finish` check
+`pos ≤ len`.  `none` = `Err`. -/
+def postRead (d : List Nat) : Option PostT :=
+  match Cur.init.read d 4 with
+  | (none, _) => none
+  | (some version, c) =>
+    -- `advance::<Fixed>()`, 2 × `FWord`, 5 × `u32`
+    let c := [4, 2, 2, 4, 4, 4, 4, 4].foldl Cur.advanceBy c
+    if version / 65536 = 2 then
+      match c.position d with
+      | none => none
+      | some _ =>
+        match c.read d 2 with
+        | (none, _) => none
+        | (some n, c1) =>
+          match c1.position d, checkedMul n 2 with
+          | some istart, some ilen =>
+            let c2 := c1.advanceBy ilen
+            match c2.position d with
+            | none => none
+            | some sstart =>
+              let c3 := c2.advanceBy (c2.remainingBytes d)
+              if c3.finish d then
+                some { version := version, numGlyphs := some n, index := some (u16sAt d istart n),
+                       sdata := some (d.drop sstart) }
+              else none
+          | _, _ => none
+    else if c.finish d then some { version := version, numGlyphs := none, index := none, sdata := none }
+    else none
+
+/-- `usize` results that may panic -/
+inductive NumRes where
+  | val (n : Nat)
+  /-- `self.num_glyphs().unwrap()` on `None` -/
+  | trap
+  deriving Repr, DecidableEq
+
+/-- `Post::num_names` -/
+def numNames (t : PostT) : NumRes :=
+  if t.version = 0x10000 then .val 258
+  else if t.version = 0x20000 then
+    match t.numGlyphs with
+    | some n => .val n
+    | none => .trap
+  else .val 0
+
+inductive GName where
+  /-- `DEFAULT_GLYPH_NAMES[i]` -/
+  | std (i : Nat)
+  /-- a Pascal string of the string data -/
+  | str (bytes : List Nat)
+  | none
+  /-- `string_data().unwrap()` on `None`, or `PString::read` trapped -/
+  | trap
+  deriving Repr, DecidableEq
+
+/-- `VarLenArray::<PString>::get(idx)` over the string data: `none` = `None` or `Some(Err(_))` -/
+def pstringGet (sd : List Nat) (idx : Nat) : Option PStr :=
+  match varGetPos (.plain 1) sd idx 0 with
+  | none => none
+  | some pos => if pos ≤ sd.length then some (pstringRead (sd.drop pos)) else none
+
+/-- `Post::glyph_name(glyph_id)` -/
+def glyphName (t : PostT) (gid : Nat) : GName :=
+  if t.version = 0x10000 then (if gid < 258 then .std gid else .none)
+  else if t.version = 0x20000 then
+    match t.index with
+    | none => .none
+    | some ix =>
+      match ix[gid]? with
+      | none => .none
+      | some idx =>
+        if idx < 258 then .std idx
+        else
+          -- `let idx = idx - DEFAULT_GLYPH_NAMES.len();` cannot underflow here
+          match t.sdata with
+          | none => .trap
+          | some sd =>
+            match pstringGet sd (idx - 258) with
+            | some (.ok s) => .str s
+            | some .trap => .trap
+            | _ => .none
+  else .none
 
 end FontVerif.HandText
